@@ -9,6 +9,9 @@ THEOREMS = [
 ]
 THM_RLM = ["GE.Rlm.marking_sound", "GE.Rlm.uniq_nodup", "GE.Rlm.uniq_single", "GE.Rlm.mem_groupOrder", "GE.Rlm.groupOrder_nodup", "GE.Rlm.fresh_not_used"]
 
+THM_TAG = ["GE.TagSem.updates_refine", "GE.TagSem.update_refines", "GE.TagSem.update_renders", "GE.TagSem.create_renders", "GE.TagSem.renders_shape",
+           "GE.TagSem.toyLaw"]
+
 THM_GUARD = [
     "GE.PA.Guard.guard_sound",
     "GE.PA.Guard.analyze_sound",
@@ -50,9 +53,12 @@ def run(chk):
                        "(uniq_nodup; the search for a free `key--n` never fails, by pigeonhole: fresh_not_used), keys that occur once are kept, and "
                        "marking_sound: if the tree marks every position whose key changed, an item that is not told `true` and reuses an old node reuses the "
                        "node of its own position (the statement finding D62 violated). The node moves (LIS, insertions, removals) are executed, not modelled"]
-    chk.model_tie([("GE.Thm.C06", THEOREMS), ("GE.Thm.C06Guard", THM_GUARD), ("GE.Thm.C06Rlm", THM_RLM)])
+    chk.model_tie([("GE.Thm.C06", THEOREMS), ("GE.Thm.C06Guard", THM_GUARD), ("GE.Thm.C06Rlm", THM_RLM), ("GE.Thm.C06Tag", THM_TAG)])
     rng = chk.rng.fork("c06")
     rlm_stream(chk, chk.rng.fork("rlm"), quick)
+    # the tag-level model (update_refines is about it) vs the real compiler + runtime: trees, values and node reuse over generated histories
+    from . import tagsem
+    tagsem.stream(chk, chk.rng.fork("tagsem"), 300 if quick else 6000)
     # guard strings: model vs implementation on a sample of expressions (full stream lives in C03)
     from . import exprgen as eg
     trees = eg.enum_depth2()[:: (9 if quick else 2)] + [eg.rand_tree(rng, 3, 1) for _ in range(150 if quick else 3000)]
